@@ -55,6 +55,7 @@ Definition dec_intent (t : tree) : option intent :=
   | T [L 4] => Some IEnd
   | T [L 5] => Some IFail
   | T [L 6] => Some IWait
+  | T [L 7] => Some ISignal
   | _ => None
   end.
 Definition enc_outcome (o : outcome) : tree :=
@@ -73,7 +74,7 @@ Definition enc_cmd (nt : net) (c : cmd) : tree :=
   | CEmit e => T [L 1; L e]
   | CRelease n it o => T [L 2; L (nid (info nt n)); enc_item it; enc_outcome o]
   | CComplete n it o => T [L 3; L (nid (info nt n)); enc_item it; enc_outcome o]
-  | CEnd => T [L 4] | CFail => T [L 5] | CWait => T [L 6]
+  | CEnd => T [L 4] | CFail => T [L 5] | CWait => T [L 6] | CSignal => T [L 7]
   end.
 
 (* the quantifier shared by the E1 properties: ids of nodes and handlers pairwise distinct (counters, gates and
@@ -228,14 +229,44 @@ Definition tag_of_cmd (c : cmd) : list Z :=
   | CSkip => [] | CEmit _ => [10]
   | CRelease _ _ (ORes []) => [12] | CRelease _ _ (ORes [_]) => [11] | CRelease _ _ (ORes _) => [14]
   | CRelease _ _ (OFail _) => [13] | CRelease _ _ OLater => [15]
-  | CComplete _ _ _ => [16] | CEnd => [17] | CFail => [18] | CWait => [19]
+  | CComplete _ _ _ => [16] | CEnd => [17] | CFail => [18] | CWait => [19] | CSignal => [25]
   end.
+
+(* the state after the harness has let everything finish (all gates opened, source ended), when Execute then
+   returned with every node shut down: what the source emitted reached every root (received or counted as
+   discarded there), and every failure of a node with a handler reached that handler likewise
+   (theorems clean_end_exact, counters_meaning).  fin = ((nodes main src) emitted). *)
+Definition fin_counts (ns : list tree) (i : nat) : option (Z * Z * Z) :=
+  match nth i ns (T []) with
+  | T [_; _; _; T [L r; _; _; L f]; L d; _] => Some (r, f, d)
+  | _ => None
+  end.
+Fixpoint index_from (i : nat) (nt : net) : list (nat * ninfo) :=
+  match nt with [] => [] | x :: r => (i, x) :: index_from (S i) r end.
+Definition final_clauses (nt : net) (fin : tree) : list tree :=
+  match fin with
+  | T [T [T ns; L 1; _]; L em] =>
+      flat_map (fun r => match fin_counts ns r with
+                         | Some (rv, _, d) => if rv + d =? em then [] else [clause 3 9 [ofNat r]; clause 1 9 [ofNat r]]
+                         | None => []
+                         end) (roots nt)
+      ++ flat_map (fun ix => match nhandler (snd ix) with
+                             | Some h =>
+                                 match fin_counts ns (fst ix), fin_counts ns h with
+                                 | Some (_, f, _), Some (rv, _, d) =>
+                                     if rv + d =? f then [] else [clause 3 9 [ofNat h]; clause 2 9 [ofNat h]]
+                                 | _, _ => []
+                                 end
+                             | None => []
+                             end) (index_from 0 nt)
+  | _ => []
+  end%Z.
 
 Definition main_blocked (s : state) : bool := match mn s with MDeliver _ _ => true | _ => false end.
 
 Definition judge_lock (ti tobs : tree) : tree :=
-  match dec_lock ti, tobs with
-  | Some i, T [netdump; snap0; T snaps; waits] =>
+  match dec_lock ti, (match tobs with T [a; b; c; d] => T [a; b; c; d; T []] | _ => tobs end) with
+  | Some i, T [netdump; snap0; T snaps; waits; fin] =>
       if negb (in_domain_e1 (li_cfgs i)) || (li_T i <? 1)%nat then out_of_domain else
       match getZs waits with
       | None => malformed
@@ -245,7 +276,8 @@ Definition judge_lock (ti tobs : tree) : tree :=
       let diffs := diff_if (tree_eqb (enc_net nt) netdump) 1 ++ diff_snap s0 snap0 ++ diff_snaps out snaps in
       let last := last snaps snap0 in
       let clauses := (match last with T [T ns; _; _] => flat_map lock_clauses_node ns | _ => [] end)
-                     ++ c17_clauses (li_T i) out snaps waits (main_blocked (st p)) in
+                     ++ c17_clauses (li_T i) out snaps waits (main_blocked (st p))
+                     ++ final_clauses nt fin in
       verdict (dedup diffs) clauses (T [enc_net nt; s0; ofList (fun cs => snd cs) out])
               (dedup (flat_map (fun cs => tag_of_cmd (fst cs)) out)
                ++ (if stopped p then [5] else []) ++ (if bad p then [6] else [])
